@@ -204,6 +204,9 @@ package mkvs
 //@   requires t != nil && request != nil
 //@   precall syncer\.NewProofBuilderForVersion$ :: argIs(0, request.Tree.Root.Hash) && argIs(1, request.Tree.Root.Hash)
 //@   note the proof served for a prefix fetch is anchored at the tree root
+//@   loop 1 invariant GPfxSeeks == old(GPfxSeeks) + idx()
+//@   ensures-local err == nil ==> GPfxSeeks == old(GPfxSeeks) + len(request.Prefixes) || total >= int(request.Limit)
+//@   note every requested prefix is sought (in request order, whatever the order of the prefixes and wherever the iterator came to rest for the previous one) unless the item limit was reached: the served proof determines the keys under EVERY requested prefix (seed C04_g stopped at the first prefix that ran to the end of the tree)
 
 // ---- tree iterator descent (C03): which children of an internal node a Seek/Next step tries ----
 
@@ -220,11 +223,30 @@ package mkvs
 //@   note GDoNext counts the direct recursive descents of one activation. Arriving at an internal node from above with a seek key that is at least as long as the node's path but sorts before it (so that the whole subtree is at or after the seek position), the FIRST descent of the step is into the node's own leaf (also for a seek key not longer than the path): the key stored AT an internal node (a key that is a prefix of other keys) is not skipped. With a seek key not longer than the path at least two children are tried (the leaf and the right subtree; whether the left one is depends on the appended bit, which the contracts of AppendBit/GetBit do not relate)
 
 //@ ghost var GRemoteSyncs int
+//@ ghost var GPfxSeeks int
+
+//@ func cache.useNode
+//@   trusted
+//@   ensures ptr.Node == old(ptr.Node) && ptr.Clean == old(ptr.Clean) && ptr.Hash == old(ptr.Hash)
+//@   note LRU bookkeeping only (container/list): the pointer's node, clean flag and hash are not touched
+
+//@ func cache.commitNode
+//@   trusted
+//@   ensures ptr.Node == old(ptr.Node) && ptr.Clean == old(ptr.Clean) && ptr.Hash == old(ptr.Hash)
+//@   note makes room by evicting OTHER nodes and links this pointer into the LRU list; the pointer itself keeps its node
+
+//@ func cache.removeNode
+//@   trusted
+//@   ensures ptr.Clean == old(ptr.Clean) && ptr.Hash == old(ptr.Hash)
+//@   ensures old(ptr.LRU == nil) ==> ptr.Node == old(ptr.Node)
+//@   note a pointer that is not in the LRU list (a dirty or new node) is left alone (first statement of tryRemoveNode)
 
 //@ func cache.derefNodePtr
-//@   props C04
+//@   props C04 C03
 //@   requires c != nil
 //@   ensures err == nil && GRemoteSyncs > old(GRemoteSyncs) ==> result0 != nil
+//@   ensures old(ptr != nil && ptr.Node != nil && (!ptr.Clean || ptr.Hash != hash.EmptyHash())) && err == nil ==> result0 != nil
+//@   note (C03) a pointer whose node is in memory never dereferences to "no node", whatever the cache evicted: callers (doGet, doInsert, doRemove, the iterator) treat a nil node as an EMPTY subtree. This fails on the pinned tree for a DIRTY internal node whose attached leaf (the key that is a prefix of the subtree's keys) was evicted from the value cache: known finding F10
 //@   note when the node had to be fetched from the remote peer (remoteSync was called) and no error is returned, a node is returned: a peer's proof that verifies but does not carry the requested node cannot make a present key look absent
 
 //@ func cache.remoteSync
@@ -272,4 +294,5 @@ package mkvs
 //@   loop 1 invariant GOvYield - old(GOvYield) == GInnerIns - old(GInnerIns) + ite(ok, 1, 0) && GInnerRem == old(GInnerRem)
 //@   loop 2 invariant GOvYield - old(GOvYield) == GInnerIns - old(GInnerIns) && GInnerRem - old(GInnerRem) == idx()
 //@   ensures err == nil ==> GOvYield - old(GOvYield) == GInnerIns - old(GInnerIns)
-//@   note counted: every time the overlay's iterator yields an entry (First/Next returned true), exactly one Insert into the inner tree follows before the next step - no entry of the overlay is skipped at commit, whatever its value and whatever the inner tree already holds; and every key still marked dirty afterwards (a removal) gets exactly one Remove on the inner tree
+//@   ensures err == nil ==> (forall k string :: !inDom(o.dirty, k))
+//@   note counted: every time the overlay's iterator yields an entry (First/Next returned true), exactly one Insert into the inner tree follows before the next step - no entry of the overlay is skipped at commit, whatever its value and whatever the inner tree already holds; and every key still marked dirty afterwards (a removal) gets exactly one Remove on the inner tree. After a successful commit no key is marked dirty any more: the overlay is transparent again, so a key written below it later (through a sibling overlay, or in the tree it is copied onto) is not hidden by a stale tombstone (seed C03_f)
